@@ -889,6 +889,12 @@ int main(int argc, char** argv) {
             std::string body = d.substr(nl + 1);
             size_t lines = 0; for (char c : body) if (c == '\n') ++lines;
             if (!lines) continue;
+            if (step.boolean("big")) {
+              // ... so many times over that the log outgrows the 256 KiB window it is read through, the last copy - the
+              // records that count - lying across the window's end
+              size_t copies = (262144 - (nl + 1)) / body.size();
+              for (size_t k = 0; k < copies; ++k) d += body;
+            } else
             for (size_t k = 0; k < 120 / lines + 4; ++k) d += body;
           } else if (kv.first.find(".ninja_deps") != std::string::npos) {
             size_t off = 16; std::string recs; size_t n = 0;
